@@ -40,6 +40,7 @@ func runC11(c *core.Ctx) {
 	c.Rule("R6", "at most one call per instance", 1)
 	c.Rule("R7", "ReplicationSet.Do: per-goroutine delay timers", 1)
 	c.Rule("R8", "DoUntilQuorum and the single-set case of DoMultiUntilQuorum… delegate to the analysed function", 2)
+	c.Rule("R9", "result trackers: success / failure / inclusion predicates and thresholds", 8)
 	pkg := c.Prog.Pkg("ring")
 	fn := an.FindFunc(pkg, "DoUntilQuorumWithoutSuccessfulContextCancellation")
 	if fn == nil {
@@ -469,6 +470,7 @@ func runC11(c *core.Ctx) {
 	}
 	c11Legacy(c)
 	c11Entry(c)
+	c11Trackers(c)
 }
 
 func c11Drain(c *core.Ctx, fn *an.Fn, resultsChan, remaining types.Object) {
@@ -686,5 +688,115 @@ func c11Entry(c *core.Ctx) {
 			_ = t
 		}
 		c.Check(ok, "R8", "func=DoMultiUntilQuorumWithoutSuccessfulContextCancellation:single", fn.Pos(), fmt.Sprintf("with exactly one replication set the call is delegated unchanged to the analysed single-set function (returns: %v)", rcs), 3)
+	}
+}
+
+// c11Trackers (R9): the result trackers' success / failure / inclusion predicates, as frozen canonical forms and tables.
+func c11Trackers(c *core.Ctx) {
+	pkg := c.Prog.Pkg("ring")
+	retCanon := func(name string) (string, *an.Fn) {
+		f := an.FindFunc(pkg, name)
+		if f == nil {
+			c.Miss("R9", "func="+name, "not found")
+			return "", nil
+		}
+		c.Analysed(f.String())
+		out := []string{}
+		for _, b := range f.Graph().Blocks {
+			if r := an.ReturnOf(b); r != nil && len(r.Results) == 1 {
+				out = append(out, f.Canon(r.Results[0]))
+			}
+		}
+		return strings.Join(out, " | "), f
+	}
+	want := map[string]string{
+		"defaultResultTracker.succeeded":                   "(recv.numSucceeded >= recv.minSucceeded)",
+		"defaultResultTracker.failed":                      "(recv.numErrors > recv.maxErrors)",
+		"defaultResultTracker.shouldIncludeResultFrom":     "true",
+		"zoneAwareResultTracker.failed":                    "(len(recv.failuresByZone) > recv.maxUnavailableZones)",
+		"zoneAwareResultTracker.shouldIncludeResultFrom":   "((recv.failuresByZone[p0.Zone] == 0) && (recv.waitingByZone[p0.Zone] == 0))",
+	}
+	for _, name := range keys(want) {
+		got, f := retCanon(name)
+		if f != nil {
+			c.Check(got == want[name], "R9", "func="+name, f.Pos(), "returns "+got+" (required "+want[name]+")", 1)
+		}
+	}
+	// constructors: thresholds
+	if f := an.FindFunc(pkg, "newDefaultResultTracker"); f != nil {
+		vals := map[string]string{}
+		f.InspectShallow(func(n ast.Node) bool {
+			if kv, ok := n.(*ast.KeyValueExpr); ok {
+				if id, ok := kv.Key.(*ast.Ident); ok {
+					vals[id.Name] = f.Canon(kv.Value)
+				}
+			}
+			return true
+		})
+		c.Check(vals["minSucceeded"] == "(len(p0) - p1)" && vals["maxErrors"] == "p1" && vals["numSucceeded"] == "0" && vals["numErrors"] == "0", "R9", "func=newDefaultResultTracker", f.Pos(), fmt.Sprintf("minSucceeded=%s maxErrors=%s (required len(instances)-maxErrors, maxErrors), counters start at 0", vals["minSucceeded"], vals["maxErrors"]), 1)
+	}
+	// default done: success counter ⇔ err == nil; error counter ⇔ err != nil
+	if f := an.FindFunc(pkg, "defaultResultTracker.done"); f != nil {
+		g := f.Graph()
+		var incS, incE an.Loc
+		f.InspectShallow(func(n ast.Node) bool {
+			if id, ok := n.(*ast.IncDecStmt); ok && id.Tok == token.INC {
+				switch f.Canon(id.X) {
+				case "recv.numSucceeded":
+					incS = g.Locate(id)
+				case "recv.numErrors":
+					incE = g.Locate(id)
+				}
+			}
+			return true
+		})
+		if incS.Valid() && incE.Valid() {
+			t := an.Table{G: g, From: g.EntryLoc(), FreeUnknown: true, Atoms: []an.Atom{{Name: "errnil", Values: []string{"T", "F"}}},
+				Binder: &an.Binder{Fn: f, Eq: map[string]string{"p1|nil": "errnil"}}, Targets: []an.Loc{incS, incE}, Names: []string{"numSucceeded++", "numErrors++"},
+				Want: func(r an.Row, i int) an.Tri { return an.FromBool((r["errnil"] == "T") == (i == 0)) }}
+			res := t.Run()
+			c.Check(res.OK(), "R9", "func=defaultResultTracker.done", f.Pos(), "a result counts as success ⇔ its error is nil, as failure otherwise, under no other condition: "+res.Summary(), res.Rows)
+		} else {
+			c.Undec("R9", "func=defaultResultTracker.done", f.Pos(), "counters not found")
+		}
+	}
+	// zone-aware succeeded: a zone is successful ⇔ nothing waiting ∧ no failure; succeeded ⇔ successful zones ≥ minSuccessfulZones
+	if f := an.FindFunc(pkg, "zoneAwareResultTracker.succeeded"); f != nil {
+		g := f.Graph()
+		var inc an.Loc
+		var loop *ast.RangeStmt
+		f.InspectShallow(func(n ast.Node) bool {
+			if rs, ok := n.(*ast.RangeStmt); ok {
+				loop = rs
+			}
+			if id, ok := n.(*ast.IncDecStmt); ok && id.Tok == token.INC {
+				inc = g.Locate(id)
+			}
+			return true
+		})
+		ret, _ := retCanon("zoneAwareResultTracker.succeeded")
+		okT := false
+		detail := ""
+		if loop != nil && inc.Valid() && f.Canon(loop.X) == "recv.waitingByZone" {
+			h, b, _ := g.LoopBlocks(loop)
+			t := an.Table{G: g, From: an.Loc{B: b, I: 0}, Opts: an.ExecOpts{Header: h}, FreeUnknown: true,
+				Atoms:   []an.Atom{{Name: "waiting", Values: []string{"eq", "gt"}}, {Name: "failures", Values: []string{"eq", "gt"}}},
+				Binder:  &an.Binder{Fn: f, Cmp: map[string]string{"each(recv.waitingByZone)|0": "waiting", "recv.failuresByZone[keyof(recv.waitingByZone)]|0": "failures"}},
+				Targets: []an.Loc{inc}, Want: func(r an.Row, _ int) an.Tri { return an.FromBool(r["waiting"] == "eq" && r["failures"] == "eq") }}
+			res := t.Run()
+			okT = res.OK()
+			detail = res.Summary()
+		}
+		c.Check(okT && ret == "(successfulZones >= recv.minSuccessfulZones)", "R9", "func=zoneAwareResultTracker.succeeded", f.Pos(), "a zone counts ⇔ none of its calls is outstanding ∧ none failed; succeeded ⇔ counted zones ≥ minSuccessfulZones (returns "+ret+"): "+detail, 4)
+	}
+	if f := an.FindFunc(pkg, "newZoneAwareResultTracker"); f != nil {
+		got := ""
+		f.InspectShallow(func(n ast.Node) bool {
+			if as, ok := n.(*ast.AssignStmt); ok && len(as.Lhs) == 1 && strings.HasSuffix(types.ExprString(as.Lhs[0]), ".minSuccessfulZones") && got == "" {
+				got = types.ExprString(as.Rhs[0])
+			}
+			return true
+		})
+		c.Check(got == "len(t.waitingByZone) - maxUnavailableZones", "R9", "func=newZoneAwareResultTracker", f.Pos(), "minSuccessfulZones = "+got+" (zones present − tolerated unavailable zones)", 1)
 	}
 }
